@@ -390,7 +390,7 @@ def rich_alphabet(n, env, subs=("bs2", "h3mid", "h3io", "h4desc", "lossy", "grp"
           ("uni", 2, 1, False), ("uni", 3, 0, True), ("bar", None), ("bar", (1,)),
           ("her", 1, 1, n - 1), ("her", 0, 0, 0), ("her", 2, n - 1, 1),
           ("bsP", 0, 2), ("psP", 1, True), ("psP", 0, False), ("lossP", n - 1), ("bslossP", 1, 0),
-          ("addgP", 0), ("addgP", n - 2)]
+          ("addgP", 0), ("addgP", n - 2), ("lossP0", 1)]
     return o
 
 
@@ -422,6 +422,9 @@ def construct(n, prog, env):
                 p = lw.Parameter(env.R[1], label="g%d" % len(params)); params.append(p)
                 sp = lw.Circuit(2); sp.bs(0, reflectivity=p); sp.ps(1, env.PH[0])
                 c.add(sp, op[1], group=True)
+            elif k == "lossP0":       # a loss Parameter whose current value is exactly 0 (still one loss mode)
+                p = lw.Parameter(0, label="z%d" % len(params)); params.append(p)
+                c.ps(op[1], env.PH[1], loss=p)
             elif k == "bslossP":
                 p = lw.Parameter(env.L[1]); params.append(p)
                 c.bs(op[1], op[2], loss=p)
@@ -431,6 +434,6 @@ def construct(n, prog, env):
                 c = apply_impl(c, op, env)
             applied += 1
         except REJECT_TYPES:
-            if k.endswith("P"):
+            if k.endswith("P") or k == "lossP0":
                 params.pop()
     return c, params, applied
